@@ -75,6 +75,8 @@ func cmdJob(args []string) {
 		res = codec.Run(*uni, *tier, *deadline)
 	case *prop == "C19":
 		res = runC19(*uni, *tier)
+	case *prop == "C17" && strings.HasPrefix(*uni, "churn/"):
+		res = hist.ExploreChurn(*uni, *tier, *deadline)
 	case *prop == "C17":
 		u, err := hist.FindUniverse("C17", *tier, *uni)
 		if err != nil {
